@@ -30,6 +30,7 @@ ASSUMPTIONS = ["RFC 4616 / 7628 / 2831 wire formats as implemented in simkit.mse
 
 IMPL = ["DIGEST-MD5", "PLAIN", "LOGIN", "OAUTHBEARER"]
 UNKNOWN = ["SCRAM-SHA-1", "GSSAPI", "XOAUTH2"]
+LOOKALIKE = {"DIGEST-MD5": "DIGEST-MD5-SESS", "PLAIN": "PLAIN-CLIENTTOKEN", "LOGIN": "XLOGIN", "OAUTHBEARER": "OAUTHBEARER-PLUS"}
 AUTHMECHS = [None, "PLAIN", "LOGIN", "OAUTHBEARER", "DIGEST-MD5", "X-UNKNOWN", "plain"]
 VERDICTS = ["accept", "reject", "forced-no"]
 CRED_CLASSES = [
@@ -44,14 +45,20 @@ def announced_lists():
     for mask in range(16):
         sub = [IMPL[i] for i in range(4) if mask & (1 << i)]
         for order in range(3):
-            for unk in (0, 1):
+            for unk in (0, 1, 2):
                 l = list(sub)
                 if order == 1:
                     l.reverse()
                 elif order == 2:
                     l = l[1:] + l[:1]
-                if unk:
+                if unk == 1:
                     l = [UNKNOWN[0]] + l + [UNKNOWN[1]]
+                elif unk == 2:
+                    # names that merely contain the name of an implemented mechanism that is NOT announced
+                    la = [LOOKALIKE[m] for m in IMPL if m not in sub]
+                    if not la:
+                        continue
+                    l = la[:2] + l + la[2:]
                 if order and len(sub) < 2:
                     continue
                 out.append(l)
